@@ -31,6 +31,18 @@ def gen_c02(ctx):
                 yield line(c0, start(rng, cfg) + [op_get(rng, cfg, completion=comp, size=100), op_simple(rng, cfg, "noop", 200),
                                                   op_put(rng, cfg, completion=comp, size=100), op_simple(rng, cfg, "noop", 200),
                                                   op_list(rng, cfg, completion=comp), op_simple(rng, cfg, "noop", 200)])
+    # an upload the server ends early: it stops reading, closes (or resets) the data connection and sends its completion
+    # reply; the client's next write fails.  Whatever the call does then - it throws today - a call that RETURNS must have
+    # read exactly the replies to the commands it sent (a scripted answer to an ABOR the client has no reason to send waits)
+    for mode in "pa":
+        for rfc in (0, 1):
+            for comp in (552, 452, 451, 426, 226):
+                for how in "rc":
+                    for cb in ("-", "p00000000000000000000000000000000000000000000"):
+                        cfg = Cfg(rng, "C02", mode=mode, rfc=rfc, ttype="I", ip=4); c0 = str(cfg)
+                        g = [setup_groups(rng, cfg, None), ",".join([rnd_reply(rng, 150), rnd_reply(rng, comp), "Drecv:1000:%s" % how]), R(b"226 abort ok")]
+                        yield line(c0, start(rng, cfg) + ["put:STOR:%s:g9.300000:-:ok:%s@" % (H(b"f"), cb) + "/".join(g)])
+    ctx["scopes"].append("uploads of 300000 bytes ended by the server after 1000 bytes (close / reset) with completion replies 552/452/451/426/226 already sent x four methods x with / without a callback")
     # greeting 120 + 220 with and without credentials (repaired defect F2)
     for user in (None, (b"u", b"p")):
         cfg = Cfg(rng, "C02"); c0 = str(cfg)
@@ -64,6 +76,17 @@ def gen_c03(ctx):
                     comp = rng.choice([226, 250])
                     yield line(c0, start(rng, cfg, login=False) + [op_get(rng, cfg, size=size, completion=comp)])
     ctx["scopes"].append("binary downloads: payload sizes %s x passive/active x EPSV-EPRT/PASV-PORT x IPv4/IPv6" % SIZES)
+    # a refused transfer whose server had already opened its data connection (it connects / is connected, then answers
+    # 4xx/5xx), followed by accepted transfers on the same control connection: each of those delivers its own bytes
+    for mode in "pa":
+        for rfc in (0, 1):
+            for act in ("Dnone", "Dsend:g5.3000::c"):
+                for kind in ("get", "list"):
+                    cfg = Cfg(rng, "C03", mode=mode, rfc=rfc, ttype="I", ip=4); c0 = str(cfg)
+                    refused = "/".join([setup_groups(rng, cfg, None), ",".join([rnd_reply(rng, rng.choice([550, 450, 553])), act])])
+                    first = ("get:%s:ok:-@" % H(b"nope") if kind == "get" else "list:-:0@") + refused
+                    yield line(c0, start(rng, cfg, login=False) + [first, op_get(rng, cfg, size=20000), op_list(rng, cfg), op_get(rng, cfg, size=100)])
+    ctx["scopes"].append("a refused download / listing whose server had already opened the data connection, followed by two downloads and a listing x four methods")
     # the server drops the data connection abortively (RST) while bytes it wrote are still undelivered, and still says 226: the call
     # must not return a positive result with a sink that holds only a prefix (after the failing call: disconnect, new session)
     for mode in "pa":
